@@ -162,7 +162,10 @@ Inductive sev :=
 | EDrop (a : nat)
 | EAdvance (ms : Z)
 | ESetInner (mode : Z)
-| ECallPanic (a : nat).          (* call() on an inner service whose call() panics *)
+| ECallPanic (a : nat)           (* call() on an inner service whose call() panics *)
+| EExtFail                       (* service.algorithm().record_failure(): feedback that does not
+                                    come from a call of this service (the algorithm is shared) *)
+| EExtSucc.                      (* service.algorithm().record_success(0) *)
 
 Fixpoint lookup {V : Type} (a : nat) (l : list (nat * V)) : option V :=
   match l with
@@ -184,7 +187,10 @@ Definition sv_set (s : svc) (limit inflight : Z) (live : list (nat * Z)) : svc :
 (* result codes: poll_ready 10 Pending (inner) / 11 Ready(Ok) / 12 Ready(Err) / 13 Pending at
    the limit (wakes itself); call 20 created / 21 id in use / 26 inner.call() panicked;
    poll 30 Pending / 31 Ok / 32 Err / 35 panicked / 39 no such live future;
-   complete 40; drop 50 dropped a live future / 59 nothing to drop; advance 60; set-inner 70 *)
+   complete 40; drop 50 dropped a live future / 59 nothing to drop; advance 60; set-inner 70;
+   external feedback on the shared algorithm: 80 failure / 81 success.
+   poll_ready compares in_flight with the algorithm's CURRENT limit (algorithm.limit()), not
+   with a copy refreshed by this service's own calls. *)
 Definition sv_step (c : acfg) (dec : Z -> Z) (thr : Z) (s : svc) (e : sev) : svc * Z :=
   match e with
   | EReady =>
@@ -238,6 +244,10 @@ Definition sv_step (c : acfg) (dec : Z -> Z) (thr : Z) (s : svc) (e : sev) : svc
       ({| sv_limit := sv_limit s; sv_inflight := sv_inflight s; sv_live := sv_live s;
           sv_created := sv_created s; sv_gate := sv_gate s; sv_now := sv_now s;
           sv_inner := mode |}, 70)
+  | EExtFail => (sv_set s (ctl_fail c dec (sv_limit s)) (sv_inflight s) (sv_live s), 80)
+  | EExtSucc =>
+      (sv_set s (if thr <? 0 then ctl_fail c dec (sv_limit s) else ctl_succ c (sv_limit s))
+              (sv_inflight s) (sv_live s), 81)
   end.
 
 Definition sv_st (c : acfg) (dec : Z -> Z) (thr : Z) (s : svc) (e : sev) : svc :=
@@ -273,7 +283,8 @@ Fixpoint sumz (l : list Z) : Z := match l with [] => 0 | x :: t => x + sumz t en
      3 Vegas: initial min max alpha beta; calls 0 record_success(arg ns), 1 record_failure, 3 limit()
    kind 4: [4; initial; min; max; increase_by; dec_num; dec_den; threshold_ms; (op a b)*]
      op 1 poll_ready | 2 call a | 3 poll a | 4 complete a b | 5 drop a | 6 advance a ms
-        | 7 inner readiness a | 8 call a with panicking inner.call() *)
+        | 7 inner readiness a | 8 call a with panicking inner.call()
+        | 9 algorithm().record_failure() | 10 algorithm().record_success(0) *)
 Definition ctl_decode (c : Z * Z) : ct_call :=
   if fst c =? 0 then CtSuccess else if fst c =? 1 then CtFailure
   else if fst c =? 2 then CtSuccesses (snd c) else CtLimit.
@@ -292,6 +303,8 @@ Definition sev_decode (t : Z * Z * Z) : sev :=
       else if op =? 5 then EDrop (Z.to_nat a)
       else if op =? 6 then EAdvance a
       else if op =? 7 then ESetInner a
+      else if op =? 9 then EExtFail
+      else if op =? 10 then EExtSucc
       else ECallPanic (Z.to_nat a)
   end.
 
